@@ -39,6 +39,9 @@ type history struct {
 	// every rename; whether git reports it as a rename (R) or as delete+add depends on its similarity heuristic when the same
 	// commit also edits the file, so the truth asks git's own log for that one bit
 	RenEdits [][2]string `json:"rename_edits,omitempty"`
+	// parallel to RenEdits: the rename landed on a fork path that was deleted earlier on the branch.  When git does not report
+	// such a rename as R (delete + add), the added file sits at a path that has a fork version: that version is its base.
+	RenOnto []bool `json:"rename_onto_deleted,omitempty"`
 	// HEAD paths whose lineage contains a rename that landed on a path deleted earlier on the branch
 	// (stratum; was known finding C03-rename-onto-deleted-path until fix d9e7954)
 	Tainted map[string]bool `json:"onto_deleted_lineage,omitempty"`
@@ -208,7 +211,9 @@ func (h *hgen) generate() *history {
 				to := h.freshPath(used)
 				tainted := hi.Tainted[p]
 				delete(hi.Tainted, p)
+				onto := false
 				if h.opts.OntoDeleted && len(deleted) > 0 && (forcedOnto || r.Intn(2) == 0) {
+					onto = true
 					// the rename lands on a path that was deleted earlier on the branch
 					to = deleted[len(deleted)-1]
 					deleted = deleted[:len(deleted)-1]
@@ -234,6 +239,7 @@ func (h *hgen) generate() *history {
 					strata["file-renamed-with-edit"] = true
 				}
 				hi.RenEdits = append(hi.RenEdits, [2]string{p, to})
+				hi.RenOnto = append(hi.RenOnto, onto)
 				state[to] = f
 				ops = append(ops, op)
 				fileOpDone = true
